@@ -72,7 +72,10 @@ def strategy(ctx):
         return {'spec': spec, 'topo': draw(st.integers(0, 2)), 'cuts': [draw(small), draw(small)],
                 'glue': [draw(small), draw(small), draw(small), draw(small)],
                 'api': draw(st.integers(0, one_in - 1)) == one_in - 1, 'partial': draw(st.booleans()),
-                'raw': draw(st.lists(raw, min_size=6, max_size=6))}
+                'raw': draw(st.lists(raw, min_size=6, max_size=6)),
+                # the base ffi grows after it was included and is then include()d again (0 = no;
+                # otherwise the position, modulo the size of the base cdef, at which it is cut)
+                'regrow': draw(st.sampled_from([0, 0, 0, 1, 2, 3, 5]))}
     return case()
 
 
@@ -214,31 +217,63 @@ def cdef_of(decls, part):
     return '\n'.join(cdefx.line(decls[i]) for i in part) + '\n'
 
 
-def realise_inline(decls, parts, includes):
+def _regrow_split(part, regrow):
+    """the base cdef in two halves (both non-empty) or None"""
+    if not regrow or len(part) < 2:
+        return None
+    c = 1 + regrow % (len(part) - 1)
+    return part[:c], part[c:]
+
+
+def realise_inline(decls, parts, includes, regrow=0):
     import cffi
     ffis = []
+    halves = _regrow_split(parts[0], regrow)
     for k, part in enumerate(parts):
         f = cffi.FFI()
         for j in includes[k]:
             f.include(ffis[j])
-        f.cdef(cdef_of(decls, part))
+        if k == 0 and halves:
+            f.cdef(cdef_of(decls, halves[0]))
+        else:
+            f.cdef(cdef_of(decls, part)) if not (k == 1 and halves) else None
+        if k == 1 and halves:
+            # the base grows after it was included; including it again must bring the rest in
+            ffis[0].cdef(cdef_of(decls, halves[1]))
+            for j in includes[k]:
+                f.include(ffis[j])
+            f.cdef(cdef_of(decls, part))
         ffis.append(f)
+    if halves and len(parts) == 1:
+        ffis[0].cdef(cdef_of(decls, halves[1]))
     return ffis
 
 
-def realise_abi(decls, parts, includes, pkgdir):
+def realise_abi(decls, parts, includes, pkgdir, regrow=0):
     import cffi
     stem = 'c34a_%d_%d' % (os.getpid(), next(_count))
     builders, mods = [], []
+    halves = _regrow_split(parts[0], regrow)
     for k, part in enumerate(parts):
         f = cffi.FFI()
         for j in includes[k]:
             f.include(builders[j])
-        f.cdef(cdef_of(decls, part))
+        if k == 0 and halves:
+            f.cdef(cdef_of(decls, halves[0]))
+        elif k == 1 and halves:
+            builders[0].cdef(cdef_of(decls, halves[1]))
+            for j in includes[k]:
+                f.include(builders[j])
+            f.cdef(cdef_of(decls, part))
+        else:
+            f.cdef(cdef_of(decls, part))
+        builders.append(f)
+    if halves and len(parts) == 1:
+        builders[0].cdef(cdef_of(decls, halves[1]))
+    for k, f in enumerate(builders):
         name = '%s_%d' % (stem, k)
         f.set_source(name, None)
         f.emit_python_code(os.path.join(pkgdir, name + '.py'))
-        builders.append(f)
     importlib.invalidate_caches()
     for k in range(len(parts)):
         mods.append(importlib.import_module('%s_%d' % (stem, k)))
@@ -325,9 +360,12 @@ def prop(case, ctx):
             ctx.fail('%s: building the include() chain failed: %s: %s' % (kind, type(e).__name__, e),
                      cdefs=[cdef_of(decls, p) for p in parts], includes=includes)
 
-    ffis = run('inline', lambda: realise_inline(decls, parts, includes))
+    regrow = case.get('regrow', 0)
+    if regrow and len(parts) > 1 and len(parts[0]) >= 2:
+        ctx.event('base ffi grows after being included, then is included again')
+    ffis = run('inline', lambda: realise_inline(decls, parts, includes, regrow))
     check_shared(env, 'inline', ffis)
-    ffis = run('abi', lambda: realise_abi(decls, parts, includes, ctx.state))
+    ffis = run('abi', lambda: realise_abi(decls, parts, includes, ctx.state, regrow))
     check_shared(env, 'abi', ffis)
     if case['api']:
         mods, partial = run('api', lambda: realise_api(case, decls, parts, includes, ctx.tmp))
